@@ -153,6 +153,56 @@ def check_generic_validate(idx, run, rule):
     return func
 
 
+def caller_option_stores(func, cfg=None):
+    """Subscript stores that can reach the dictionary the caller passed as
+    `options` (forward may-alias analysis over the statement graph)."""
+    if cfg is None:
+        cfg = CFG(func)
+    def is_alias(value, aliases):
+        # does this expression evaluate to the caller's dictionary?
+        if isinstance(value, ast.Name):
+            return value.id in aliases
+        if isinstance(value, ast.BoolOp):
+            return any(is_alias(v, aliases) for v in value.values)
+        if isinstance(value, ast.IfExp):
+            return is_alias(value.body, aliases) or \
+                is_alias(value.orelse, aliases)
+        return False
+    # forward may-alias analysis over the statement graph: which names
+    # can still refer to the caller's dictionary at each statement
+    state = {n.id: None for n in cfg.nodes}
+    state[cfg.entry.id] = frozenset({"options"})
+    work = [cfg.entry]
+    while work:
+        cur = work.pop()
+        out = set(state[cur.id])
+        st = cur.ast
+        if cur.kind == "stmt" and isinstance(st, ast.Assign) and \
+                len(st.targets) == 1 and \
+                isinstance(st.targets[0], ast.Name):
+            if is_alias(st.value, out):
+                out.add(st.targets[0].id)
+            else:
+                out.discard(st.targets[0].id)
+        for nxt, _ in cur.succ:
+            new = frozenset(out) if state[nxt.id] is None else \
+                state[nxt.id] | out
+            if new != state[nxt.id]:
+                state[nxt.id] = new
+                work.append(nxt)
+    stores = []
+    for cur in cfg.nodes:
+        st = cur.ast
+        if cur.kind == "stmt" and isinstance(st, ast.Assign) and \
+                state[cur.id] is not None:
+            for tgt in st.targets:
+                if isinstance(tgt, ast.Subscript) and \
+                        isinstance(tgt.value, ast.Name) and \
+                        tgt.value.id in state[cur.id]:
+                    stores.append(st)
+    return stores
+
+
 def check_subclass_chains(idx, run, rule):
     """Every ParallelLoopTrans subclass validate() chains to the generic one;
     the ones that force the dependence test off are the reviewed set."""
@@ -189,24 +239,18 @@ def check_subclass_chains(idx, run, rule):
             for s in ast.walk(func))
         # a validate() that sets options itself works on its own copy: the
         # caller's dictionary is typically reused for the next loop
-        stores = [st for st in ast.walk(func) if isinstance(st, ast.Assign)
-                  and isinstance(st.targets[0], ast.Subscript) and
-                  ast.unparse(st.targets[0].value) == "options"]
-        if stores:
-            copies = [st for st in ast.walk(func) if isinstance(st, ast.Assign)
-                      and ast.unparse(st.targets[0]) == "options" and
-                      ast.unparse(st.value) in ("options.copy()",
-                                                "dict(options)",
-                                                "copy.copy(options)")]
-            okc = bool(copies) and min(c.lineno for c in copies) < \
-                min(st.lineno for st in stores)
+        stores = caller_option_stores(func, cfg)
+        if True:
+            okc = not stores
             run.check(rule, okc, f"{cls.name}.validate",
                       "options are copied before validate() changes them",
                       f"{cls.name}.validate stores into the caller's options "
-                      f"dictionary ({ast.unparse(stores[0])[:50]}): a script "
+                      f"dictionary "
+                      f"({ast.unparse(stores[0])[:50] if stores else ''}): "
+                      f"a script "
                       f"that reuses the dictionary passes 'force': True to "
                       f"the next transformation, which then skips its "
-                      f"dependence analysis", loc(mod, stores[0]))
+                      f"dependence analysis", loc(mod, stores[0] if stores else func))
         if forces:
             setters.add(cls.name)
             run.check(rule, cls.name in FORCE_SETTERS, f"{cls.name}.validate",
